@@ -386,11 +386,13 @@ def ambient_probe(ctx):
             return x + 1
         which = rng.choice(['new', 'new', 'old'])
         ta = threading.Thread(target=caller, args=('A', slow, which)); tb = threading.Thread(target=caller, args=('B', quick, which))
-        ta.start(); started.wait(5); tb.start(); ta.join(60); tb.join(60)
+        ta.start(); started.wait(5); tb.start(); ta.join(25); tb.join(25)
         case = {'probe': 'two threads mapping at the same time', 'xs': xs, 'which': which}
         ctx.case(case, nontrivial=True); ctx.count('ambient:two-threads')
         if box.get('A') != {'ok': [x * x for x in xs]} or box.get('B') != {'ok': [x + 1 for x in xs]}:
             ctx.fail('parallel_map(f, xs) != [f(x) for x in xs] when two threads map at the same time', case, box)
+            if ta.is_alive() or tb.is_alive():
+                break           # calls that do not return: one witness is enough
     fake = 'ipykernel' not in sys.modules
     if fake:
         sys.modules['ipykernel'] = types.ModuleType('ipykernel')
